@@ -8,7 +8,8 @@ CHECK = {
     "thorough": {"shards": 16, "timeout": 3600},
     "required_categories": ["a_smart_rotation", "a_reinitialised_object", "a_fresh_object", "b_pose_covariance", "b_rank_deficient_covariance",
                             "b_identity_transform_and_attitude", "c_ls_covariance_float", "c_ls_covariance_double",
-                            "c_later_problem_on_reused_solver", "c_block_boundary_size", "c_written_through_kept_references", "c_path_svd", "c_path_cholesky", "c_path_weighted"],
+                            "c_later_problem_on_reused_solver", "c_block_boundary_size", "c_written_through_kept_references", "c_path_svd", "c_path_cholesky", "c_path_weighted",
+                            "a_history_mixing_init_overloads", "c_preconditioner_set_between_solve_and_covariance"],
     "required_oracles": ["a.dRTdAngles_is_matrix_times_vector", "a.R_is_RzRyRx", "b.symmetric", "b.positive_semidefinite",
                          "b.covariance_is_J_C_Jt", "c.covariance_is_v_A_invJtJ_At"],
     "rule": "index mod 3 selects the sub-property: (a) angle triple roll,yaw in [-pi,pi], |pitch| <= pi/2-0.05 incl. zeros, limits "
